@@ -266,13 +266,14 @@ class TensorflowConnector(BuiltinConnector):
         return self._funm(matrix, partial(self.np.power, x2=power))
 
     def polar(self, matrix, side="right"):
-        P = self._tf.linalg.sqrtm(self.np.conj(matrix) @ matrix.T)
-        Pinv = self._tf.linalg.inv(P)
+        adjoint = self.np.conj(matrix).T
 
         if side == "right":
-            U = matrix @ Pinv
+            P = self._tf.linalg.sqrtm(adjoint @ matrix)
+            U = matrix @ self._tf.linalg.inv(P)
         elif side == "left":
-            U = Pinv @ matrix
+            P = self._tf.linalg.sqrtm(matrix @ adjoint)
+            U = self._tf.linalg.inv(P) @ matrix
 
         return U, P
 
